@@ -121,6 +121,8 @@ def run(repo, res):
         'proc': 'written by the launcher only, read only by the invocation that wrote it',
         'executable': 'configuration', 'env': 'configuration', 'logfile': 'configuration',
     }
+    TRIAGED = {'prepare_thread': 'the handle of the starter: written under the lock by prepare, cleared by the starter itself; every reader '
+                                 'reads it once into a local (R2) and the launch routes re-test under the lock (R3)'}
     for attr in sorted(racy):
         pairs = racy[attr]
         w, a = pairs[0]
@@ -149,6 +151,15 @@ def run(repo, res):
                       'accepted only as: %s -- that supporting fact does not hold'
                       % (attr, w[0], w[1], a[0], a[1], REASONED[attr]),
                       sample='%s: %d unlocked write/access pairs, reasoned: %s' % (attr, len(pairs), REASONED[attr]))
+            continue
+        # a shared field nobody has looked at: the accepted unprotected fields are a reasoned table (each with the rule that decides its
+        # safe use), not whatever the lock-set analysis happens to find
+        if attr not in TRIAGED:
+            res.check('C16-R1', key, False, REMOTE, w[4].lineno,
+                      'field %s is written in %s/%s (lock held: %s) and accessed in %s/%s (lock held: %s) without a common lock, and is not '
+                      'one of the fields whose unprotected use was examined (%s): a flag or handle shared between the caller and the starter '
+                      'thread needs the lock or an argument why the race is benign' % (
+                          attr, w[0], w[1], w[2], a[0], a[1], a[2], ', '.join(sorted(set(TRIAGED) | set(REASONED)))))
             continue
         # R2 check-then-act decides whether an unprotected field is used safely
         bad = check_then_act(methods, attr, acc[attr])
